@@ -554,6 +554,8 @@ class PatternKind(Base):
 
 # ------------------------------------------------------------------------------------------------ pad
 def _form(v, form):
+    if form in ('uint8', 'int16', 'uint16', 'int32'):
+        return np.array(v, dtype=form)
     return tuple(v) if form == 'tuple' else np.array(v, dtype='int64') if form == 'ndarray' else list(v)
 
 
@@ -587,7 +589,8 @@ class PadKind(Base):
             tgt = [s + o + rng.choice([0, 0, 1, 2, -1 if k % 7 == 0 else 0]) for s, o in zip(shape, offs)]
             tgt = [max(t, 0) for t in tgt]
             c = self._case(rng, shape, tgt, offs if k % 9 else None)
-            c.update(tform=rng.choice(['list', 'tuple', 'ndarray']), oform=rng.choice(['list', 'tuple', 'ndarray']), pw_np=rng.random() < 0.3)
+            c.update(tform=rng.choice(['list', 'tuple', 'ndarray', 'uint8', 'int32']), oform=rng.choice(['list', 'tuple', 'ndarray', 'uint8', 'int16', 'uint16']),
+                     pw_np=rng.random() < 0.3)
             yield c
         nl = 3 if tier == 'quick' else 12
         for layout in LAYOUTS + ['zerostride']:
@@ -692,6 +695,17 @@ class ExtractKind(Base):
         n = 70 if tier == 'quick' else 900
         for k in range(n):
             yield self._case(rng, k)
+        # indexes = the array returned by find_peaks (int32) / the start column of find_width (strided int64 view)
+        for k in range(12 if tier == 'quick' else 100):
+            c = self._case(rng, k % 8)
+            lo, hi = c['before'] + 1, c['shape'][0] - 2 - c['after']
+            cand = list(range(lo, hi + 1, 2))           # isolated positions (not adjacent)
+            if not cand:
+                continue
+            c['indexes'] = sorted(rng.sample(cand, min(len(cand), rng.randint(1, 4))))
+            c['idx_from'] = ['peaks', 'width'][k % 2]
+            c['idx_dtype'] = 'int32'
+            yield c
         nl = 3 if tier == 'quick' else 12
         for layout in [l for l in LAYOUTS if l not in ('fortran', 'transposed')] + ['zerostride']:
             for k in range(nl):
@@ -729,8 +743,23 @@ class ExtractKind(Base):
                 'mode': mode, 'idx_dtype': idt}
 
     def build(self, case):
-        return [_relayout(_arr(case), case.get('layout')),
-                _relayout(np.array(case['indexes'], dtype=case['idx_dtype']), case.get('ilayout'))]
+        idx = None
+        src = case.get('idx_from')
+        if src:             # the index array is the very object find_peaks / find_width returned (int32 array / column view of int64 rows)
+            from scared import signal_processing as sp
+            sig = np.zeros(case['shape'][0] + 2)
+            if src == 'peaks':
+                sig[case['indexes']] = 1.0
+                got = sp.find_peaks(sig, 0, 0.5)
+            else:
+                for i in case['indexes']:
+                    sig[i] = 1.0                      # isolated one-sample runs starting at the indexes
+                got = sp.find_width(sig, sp.Direction.POSITIVE, 0.5, 1)[:, 0]
+            if [int(v) for v in got.tolist()] == list(case['indexes']):
+                idx = got
+        if idx is None:
+            idx = _relayout(np.array(case['indexes'], dtype=case['idx_dtype']), case.get('ilayout'))
+        return [_relayout(_arr(case), case.get('layout')), idx]
 
     def invoke(self, arrs, case, keep=None):
         from scared import signal_processing as sp
@@ -1461,7 +1490,8 @@ class ExtractLarge(Base):
     shard = 4
     rule = ('extract_around_indexes at count / size boundaries: 255 .. 4097 and 65536 indexes (runs of a few admissible positions, e.g. '
             '1024 x a then 1 x b) in the three modes on a short piecewise-constant signal, and signals of 255 .. 4097 samples with a few '
-            'indexes; run-length encoded; non-trivial = at least two distinct indexes')
+            'indexes; int8 / uint8 / int16 / uint16 index arrays with values at the limits of the dtype so that index + after or index - before '
+            'crosses them (data of 130 .. 65560 samples with marker values on the positions taken); run-length encoded; non-trivial = at least two distinct indexes')
 
     def gen(self, rng, tier):
         reps = 1 if tier == 'quick' else 4
@@ -1487,10 +1517,49 @@ class ExtractLarge(Base):
                 before, after = rng.randint(0, 3), rng.randint(0, 3)
                 yield {'data': _split(rng, n, [0, 3, 8, 15], 5), 'dtype': dtype, 'before': before, 'after': after, 'mode': ['stack', 'average', 'concatenate'][k % 3],
                        'idx': [[p, 1] for p in [before, n - 1 - after, rng.randint(before, n - 1 - after)]]}
+        yield from self.limits(rng, tier)
 
     def build(self, case):
         d = _expand(case['data'])
-        return [_logical(d, 1, case['dtype'], [len(d)]), np.array(_expand(case['idx']), dtype='int64')]
+        return [_logical(d, 1, case['dtype'], [len(d)]), np.array(_expand(case['idx']), dtype=case.get('idx_dtype', 'int64'))]
+
+    @staticmethod
+    def _marked(rng, n, positions):
+        """n samples, run-length encoded: a floor value, distinct marker values on the given positions (negative = from the end)."""
+        pos = sorted({p % n for p in positions if -n <= p < n})
+        runs, cur = [], 0
+        for j, p in enumerate(pos):
+            if p > cur:
+                runs.append([1 + (len(runs) % 2), p - cur])
+            runs.append([10 + j % 90, 1])
+            cur = p + 1
+        if cur < n:
+            runs.append([3, n - cur])
+        return runs
+
+    def limits(self, rng, tier):
+        """Index arrays of narrow integer dtypes whose values are so close to the limits of the dtype that index + after (or
+        index - before) crosses them: the positions must still be computed exactly."""
+        reps = 2 if tier == 'quick' else 10
+        for idt in ('int8', 'uint8', 'int16', 'uint16'):
+            info = np.iinfo(idt)
+            top, bot = int(info.max), int(info.min)
+            for k in range(reps):
+                for side in ('high', 'low'):
+                    if side == 'high':
+                        r = rng.randint(0, 4)
+                        after, before = r + rng.randint(1, 9), rng.randint(0, 3)
+                        ids = [top - r] + [top - rng.randint(0, 6) for _ in range(rng.randint(0, 2))]
+                        n = top + after + rng.randint(1, 12)
+                    else:
+                        r = rng.randint(0, 3)
+                        before, after = r + rng.randint(1, 9), rng.randint(0, 3)
+                        ids = [bot + r] + [bot + rng.randint(0, 5) for _ in range(rng.randint(0, 2))]
+                        n = abs(bot) + before + after + rng.randint(8, 30)      # negative positions wrap to the end of the data
+                    positions = [i + o for i in ids for o in range(-before, after + 1)]
+                    yield {'data': self._marked(rng, n, positions), 'dtype': ['float64', 'int16', 'int32'][k % 3], 'idx': [[i, 1] for i in ids],
+                           'idx_dtype': idt, 'before': before, 'after': after, 'mode': ['stack', 'average', 'concatenate'][(k + (side == 'low')) % 3],
+                           'limit': side}
 
     def invoke(self, arrs, case, keep=None):
         from scared import signal_processing as sp
@@ -1510,7 +1579,7 @@ class ExtractLarge(Base):
         return {'indexes': sum(c for _, c in case['idx']), 'mode': case['mode'], 'len': sum(c for _, c in case['data'])}
 
     def tags(self, case, obs):
-        return ['extract_large', 'extract_large_' + case['mode']]
+        return ['extract_large', 'extract_large_' + case['mode']] + (['extract_index_dtype_limit'] if case.get('limit') else [])
 
     def sample(self, case, obs):
         return {'case': case, 'observed': {'shape': obs.get('shape'), 'rle': obs.get('rle', [])[:6]}}
